@@ -43,6 +43,8 @@ def replay(arg):
     # how the history is realised: objects stored in base_link with fresh frame configurations for every call, or stored in map with a different
     # ego pose for every dataset frame and ONE configuration object per critical-filter variant shared by all the calls that use it
     how = arg[3] if len(arg) > 3 else "base_link"
+    pipeline.CONF_RENDER = "tight" if how.endswith(":tight-confidences") else "wide"
+    how = how.split(":")[0]
     cfg = consts["cfg"]
     rendering = "map" if how == "map-shared-configs" else "base_link"
     mgr = pipeline.manager_for(cfg, rendering)
@@ -129,7 +131,7 @@ def replay_worlds(ctx: Ctx, maxcalls, want=lambda clause: True, tag=""):
             items.append(st)
         # constants as python values (parsed back from the dumped frames is not possible for unused variants: parse the TLA text once via TLC dump of cfg only)
         consts_py = dict(name=name, cfg=cw["cfg"], dataset=_parse_tla(w["Dataset"]), ests=_parse_tla(w["EstVariants"]), crits=_parse_tla(w["CritVariants"]), pf=_parse_tla(w["Pf"]))
-        jobs = [(consts_py, plain(st["frameResults"]), plain(st["scene"]), how) for st in items for how in ("base_link", "map-shared-configs")]
+        jobs = [(consts_py, plain(st["frameResults"]), plain(st["scene"]), how) for st in items for how in ("base_link", "map-shared-configs", "base_link:tight-confidences")]
         outs = pmap(replay, jobs)
         for job, (n, mism) in zip(jobs, outs):
             ctx.traces += n
